@@ -61,6 +61,16 @@ def main(c):
             lists[i % nsh].append(p)
             classes[p] = cls
             c.count('class_' + cls)
+        # a few inputs above 16 MiB (window-growing loops have their ceilings there)
+        for bi in range(6 if thorough else 2):
+            d, f = corpus[rng.randrange(len(corpus))]
+            r = mfile.big_garbage_page(rng, d, f, fill=[0xFF, 0x00, None][bi % 3])
+            if r is None:
+                continue
+            p = os.path.join(md, 'big%02d.bin' % bi)
+            with open(p, 'wb') as fh:
+                fh.write(r[0])
+            lists[bi % nsh].append(p); classes[p] = r[1]; c.count('class_' + r[1])
         env = {'ASAN_OPTIONS': vlib.ASAN_ENV['ASAN_OPTIONS'].replace('max_allocation_size_mb=1024', 'max_allocation_size_mb=512')}
         # ---- stage 2: coverage-guided generation (clang libFuzzer build of the same API program). The fuzzer only generates:
         # every unit it adds to the corpus joins the replay lists below; artifacts are re-run one per process and classified.
@@ -118,7 +128,7 @@ def main(c):
                         c.count(n, int(v))
                     elif line.startswith('HANG '):
                         p = paths[int(line.split()[1])]
-                        c.violation('hang:reader:%s' % classes.get(p), 'input of %d bytes needs more than 20 CPU-seconds (%s)' % (os.path.getsize(p), classes.get(p)), files={'input.bin': open(p, 'rb').read()})
+                        c.violation('hang:reader:%s' % classes.get(p), 'input of %d bytes needs more than %d CPU-seconds (%s)' % (os.path.getsize(p), 20 + (os.path.getsize(p) >> 20) * 15, classes.get(p)), files={'input.bin': open(p, 'rb').read()})
                     elif line.startswith('EVAL '):
                         pass
                 culprit = None
